@@ -325,6 +325,7 @@ def canonicalise(tree: ast.AST) -> ast.AST:
                 return ast.copy_location(ast.Assign(targets=[node.target], value=node.value), node)
             return node
     T().visit(tree)
+    _fold_simple_generators(tree)
     _split_tuple_assigns(tree)
     _fold_append_loops(tree)
     _inline_adjacent_temporaries(tree)
@@ -334,6 +335,82 @@ def canonicalise(tree: ast.AST) -> ast.AST:
 
 _PURE_NODES = (ast.Name, ast.Attribute, ast.Subscript, ast.Constant, ast.BinOp, ast.Compare, ast.Tuple, ast.UnaryOp, ast.Slice, ast.expr_context, ast.operator, ast.cmpop,
                ast.unaryop)
+
+
+def _fold_if_assign(tree: ast.AST) -> None:
+    '''`if c: x = a` / `else: x = b` (one plain assignment to the same name in each branch, nothing else) is `x = a if c else b`.'''
+    for fn in ast.walk(tree):
+        if not isinstance(fn, (ast.FunctionDef, ast.AsyncFunctionDef)):
+            continue
+        for holder in ast.walk(fn):
+            for field in ('body', 'orelse', 'finalbody'):
+                st = getattr(holder, field, None)
+                if not isinstance(st, list):
+                    continue
+                for i, s_ in enumerate(st):
+                    if isinstance(s_, ast.If) and len(s_.body) == 1 and len(s_.orelse) == 1:
+                        a, b = s_.body[0], s_.orelse[0]
+                        if isinstance(a, ast.Assign) and isinstance(b, ast.Assign) and len(a.targets) == 1 and len(b.targets) == 1 \
+                                and isinstance(a.targets[0], ast.Name) and isinstance(b.targets[0], ast.Name) and a.targets[0].id == b.targets[0].id \
+                                and not any(isinstance(x, (ast.Yield, ast.YieldFrom, ast.Await, ast.NamedExpr)) for v in (a.value, b.value, s_.test) for x in ast.walk(v)):
+                            st[i] = ast.copy_location(ast.Assign(targets=[a.targets[0]], value=ast.copy_location(ast.IfExp(test=s_.test, body=a.value, orelse=b.value), s_)), s_)
+
+
+def _fold_simple_generators(tree: ast.AST) -> None:
+    """A nested generator function without parameters whose body is one loop around one `yield` (optionally under one `if`), and that is named once — by a call —
+    is the generator expression `(E for T in I [if c])` written where the call stands."""
+    for fn in ast.walk(tree):
+        if not isinstance(fn, (ast.FunctionDef, ast.AsyncFunctionDef)):
+            continue
+        for holder in ast.walk(fn):
+            for field in ('body', 'orelse', 'finalbody'):
+                st = getattr(holder, field, None)
+                if not isinstance(st, list):
+                    continue
+                for g in list(st):
+                    if not isinstance(g, ast.FunctionDef) or g is fn or g.decorator_list:
+                        continue
+                    a = g.args
+                    if a.args or a.kwonlyargs or a.vararg or a.kwarg or a.posonlyargs:
+                        continue
+                    gb = [b for b in g.body if not (isinstance(b, ast.Expr) and isinstance(b.value, ast.Constant) and isinstance(b.value.value, str))]
+                    if len(gb) != 1 or not isinstance(gb[0], ast.For) or gb[0].orelse or len(gb[0].body) != 1:
+                        continue
+                    inner = gb[0].body[0]
+                    cond = None
+                    if isinstance(inner, ast.If) and not inner.orelse and len(inner.body) == 1:
+                        cond, inner = inner.test, inner.body[0]
+                    if not (isinstance(inner, ast.Expr) and isinstance(inner.value, ast.Yield) and inner.value.value is not None):
+                        continue
+                    if any(isinstance(x, (ast.Yield, ast.YieldFrom, ast.Await, ast.NamedExpr)) for x in ast.walk(inner.value.value)) or \
+                            any(isinstance(x, (ast.Yield, ast.YieldFrom, ast.Await, ast.NamedExpr)) for x in ast.walk(gb[0].iter)):
+                        continue
+                    uses = [x for x in ast.walk(fn) if isinstance(x, ast.Name) and x.id == g.name]
+                    calls = [x for x in ast.walk(fn) if isinstance(x, ast.Call) and isinstance(x.func, ast.Name) and x.func.id == g.name and not x.args and not x.keywords]
+                    if len(uses) != 1 or len(calls) != 1 or any(isinstance(x, ast.FunctionDef) and x.name == g.name and x is not g for x in ast.walk(fn)):
+                        continue
+                    # the call must come after the definition in the same statement list (not inside another nested def, whose late binding we keep)
+                    idx = st.index(g)
+                    later = [x for s_ in st[idx + 1:] for x in ast.walk(s_)]
+                    if not any(x is calls[0] for x in later):
+                        continue
+                    inner_scopes = {id(y) for s_ in st[idx + 1:] for x in ast.walk(s_) if isinstance(x, (ast.FunctionDef, ast.Lambda)) for y in ast.walk(x)}
+                    if id(calls[0]) in inner_scopes:
+                        continue
+                    ge = ast.GeneratorExp(elt=inner.value.value, generators=[ast.comprehension(target=gb[0].target, iter=gb[0].iter, ifs=[cond] if cond is not None else [], is_async=0)])
+                    target_call = calls[0]
+
+                    class Sub(ast.NodeTransformer):
+                        def visit_Call(self, node):
+                            if node is target_call:
+                                return ast.copy_location(ge, node)
+                            return self.generic_visit(node)
+                    for s_ in st[idx + 1:]:
+                        Sub().visit(s_)
+                    st.remove(g)
+                    if not st:
+                        st.append(ast.copy_location(ast.Pass(), g))
+        ast.fix_missing_locations(fn)
 
 
 def _split_tuple_assigns(tree: ast.AST) -> None:
@@ -441,6 +518,8 @@ def _inline_adjacent_temporaries(tree: ast.AST) -> None:
                                 # a value that calls something is folded only where hoisting would have taken it from: a direct argument of the call
                                 # (or the returned / assigned value itself) of the next statement
                                 nv = getattr(nxt, 'value', None)
+                                if isinstance(nv, (ast.Yield, ast.YieldFrom, ast.Await)) and nv.value is not None:
+                                    nv = nv.value          # `yield from zip(labels, results)`
                                 direct = nv is reads[0] or (isinstance(nv, ast.Call) and (any(x is reads[0] for x in nv.args) or any(k.value is reads[0] for k in nv.keywords)))
                                 if not direct:
                                     scoped = True
@@ -479,6 +558,214 @@ def _tail_form(stmts: tp.List[ast.stmt], result: ast.expr, ok: tp.List[bool]) ->
         ok[0] = False
         return out
     return out
+
+
+def _own_yields(fn: ast.AST) -> bool:
+    stack = list(fn.body)
+    while stack:
+        n = stack.pop()
+        if isinstance(n, (ast.FunctionDef, ast.AsyncFunctionDef, ast.Lambda, ast.ClassDef)):
+            continue
+        if isinstance(n, (ast.Yield, ast.YieldFrom)):
+            return True
+        stack.extend(ast.iter_child_nodes(n))
+    return False
+
+
+def _renest_generator_helpers(trees: tp.Sequence[ast.AST]) -> None:
+    """Extract-generator, undone.  A private generator helper (`_name`, one definition, at most three references, every one a call, all from inside one
+    top-level function) is put back where a closure would stand: if a function's whole body is `return helper(...)` / `yield from helper(...)`, that function
+    gets the helper's body; otherwise the helper becomes a nested function of its caller, defined just before the statement that first uses it, and a parameter
+    that every call binds to the same plain name of the caller becomes a captured variable again.  The definition itself stays where it is."""
+    defs: tp.Dict[str, tp.List[tp.Tuple[ast.FunctionDef, tp.Optional[ast.ClassDef]]]] = {}
+    refs: tp.Dict[str, int] = {}
+    ncalls: tp.Dict[str, int] = {}
+    for tree in trees:
+        for cls in [None] + [c for c in ast.walk(tree) if isinstance(c, ast.ClassDef)]:
+            body = tree.body if cls is None else cls.body
+            for n in body:
+                if isinstance(n, ast.FunctionDef) and n.name.startswith('_') and not n.name.startswith('__') and _own_yields(n):
+                    defs.setdefault(n.name, []).append((n, cls))
+        for n in ast.walk(tree):
+            if isinstance(n, ast.Attribute):
+                refs[n.attr] = refs.get(n.attr, 0) + 1
+            elif isinstance(n, ast.Name):
+                refs[n.id] = refs.get(n.id, 0) + 1
+            elif isinstance(n, ast.Constant) and isinstance(n.value, str) and n.value.startswith('_') and n.value.isidentifier():
+                refs[n.value] = refs.get(n.value, 0) + 1
+            if isinstance(n, ast.Call):
+                nm_ = n.func.attr if isinstance(n.func, ast.Attribute) else (n.func.id if isinstance(n.func, ast.Name) else None)
+                if nm_ is not None:
+                    ncalls[nm_] = ncalls.get(nm_, 0) + 1
+    cands = {nm: dl[0] for nm, dl in defs.items() if len(dl) == 1 and 1 <= refs.get(nm, 0) <= 3 and refs.get(nm, 0) == ncalls.get(nm, 0)}
+    if not cands:
+        return
+    # call sites per candidate, with the outermost function they sit in
+    sites: tp.Dict[str, tp.List[tp.Tuple[ast.Call, ast.AST, ast.AST]]] = {}
+    for tree in trees:
+        for cls in [None] + [c for c in ast.walk(tree) if isinstance(c, ast.ClassDef)]:
+            body = tree.body if cls is None else cls.body
+            for top in body:
+                if not isinstance(top, (ast.FunctionDef, ast.AsyncFunctionDef)):
+                    continue
+                for x in ast.walk(top):
+                    if isinstance(x, ast.Call):
+                        nm_ = x.func.attr if isinstance(x.func, ast.Attribute) else (x.func.id if isinstance(x.func, ast.Name) else None)
+                        if nm_ in cands:
+                            sites.setdefault(nm_, []).append((x, top, tree))
+    site_no = 0
+    for nm, (h, hcls) in cands.items():
+        ss = sites.get(nm, [])
+        if len(ss) != ncalls.get(nm, 0) or not ss or len({id(t) for _c, t, _tr in ss}) != 1:
+            continue
+        top = ss[0][1]
+        if top is h:
+            continue
+        decos = {ast.unparse(d) for d in h.decorator_list}
+        a = h.args
+        if decos - {'staticmethod', 'classmethod'} or a.vararg or a.kwarg or a.posonlyargs \
+                or any(isinstance(x, (ast.Global, ast.Nonlocal)) for b in h.body for x in ast.walk(b)):
+            continue
+        params = [x.arg for x in a.args]
+        kwonly = [x.arg for x in a.kwonlyargs]
+        defaults: tp.Dict[str, ast.expr] = {}
+        for prm, d in zip(params[len(params) - len(a.defaults):], a.defaults):
+            defaults[prm] = d
+        for prm, d in zip(kwonly, a.kw_defaults):
+            if d is not None:
+                defaults[prm] = d
+        bindings: tp.List[tp.Dict[str, ast.expr]] = []
+        bad = False
+        for call, _t, _tr in ss:
+            f = call.func
+            if any(isinstance(x, ast.Starred) for x in call.args) or any(k.arg is None for k in call.keywords):
+                bad = True
+                break
+            binding: tp.Dict[str, ast.expr] = {}
+            pos = list(params)
+            if hcls is not None and 'staticmethod' not in decos:
+                if not isinstance(f, ast.Attribute) or not pos or not isinstance(f.value, ast.Name):
+                    bad = True
+                    break
+                recv = f.value
+                if 'classmethod' in decos and recv.id != 'cls':
+                    recv = ast.Attribute(value=recv, attr='__class__', ctx=ast.Load())
+                binding[pos.pop(0)] = recv
+            if len(call.args) > len(pos):
+                bad = True
+                break
+            for prm, arg in zip(pos, call.args):
+                binding[prm] = arg
+            for kw in call.keywords:
+                if kw.arg in binding or kw.arg not in params + kwonly:
+                    bad = True
+                binding[kw.arg] = kw.value
+            for prm in params + kwonly:
+                if prm not in binding:
+                    if prm in defaults:
+                        binding[prm] = defaults[prm]
+                    else:
+                        bad = True
+            bindings.append(binding)
+        if bad:
+            continue
+        # the mark of an extracted closure: its parameters are exactly the variables it used to capture — every argument at every site is a plain name
+        recv_prm = params[0] if (hcls is not None and 'staticmethod' not in decos and params) else None
+        if not all(isinstance(v, ast.Name) for b in bindings for prm, v in b.items() if prm != recv_prm):
+            continue
+        stored = {x.id for b in h.body for x in ast.walk(b) if isinstance(x, ast.Name) and isinstance(x.ctx, (ast.Store, ast.Del))}
+        hbody = [b for b in h.body if not (isinstance(b, ast.Expr) and isinstance(b.value, ast.Constant) and isinstance(b.value.value, str))]
+        site_no += 1
+        suffix = f'__{nm.strip("_")}{site_no}'
+        # (a) the caller is nothing but the call
+        done = False
+        if len(ss) == 1:
+            call = ss[0][0]
+            for fn in ast.walk(top):
+                if not isinstance(fn, (ast.FunctionDef, ast.AsyncFunctionDef)):
+                    continue
+                fb = [b for b in fn.body if not (isinstance(b, ast.Expr) and isinstance(b.value, ast.Constant) and isinstance(b.value.value, str))]
+                if len(fb) == 1 and ((isinstance(fb[0], ast.Return) and fb[0].value is call)
+                                     or (isinstance(fb[0], ast.Expr) and isinstance(fb[0].value, ast.YieldFrom) and fb[0].value.value is call)):
+                    binding = bindings[0]
+                    direct = {prm: arg for prm, arg in binding.items() if prm not in stored and (isinstance(arg, ast.Name) or isinstance(arg, ast.Attribute) and prm == params[0])}
+                    hlocals = stored | set(binding)
+
+                    class Rn(ast.NodeTransformer):
+                        def visit_Name(self, node):
+                            if node.id in direct:
+                                return ast.copy_location(copy.deepcopy(direct[node.id]), node) if isinstance(node.ctx, ast.Load) else node
+                            if node.id in hlocals:
+                                return ast.copy_location(ast.Name(id=node.id + suffix, ctx=node.ctx), node)
+                            return node
+                    body = [Rn().visit(copy.deepcopy(b)) for b in hbody]
+                    pre = [ast.copy_location(ast.Assign(targets=[ast.Name(id=prm + suffix, ctx=ast.Store())], value=copy.deepcopy(arg)), fb[0])
+                           for prm, arg in binding.items() if prm not in direct]
+                    fn.body[fn.body.index(fb[0]):] = pre + body
+                    ast.fix_missing_locations(fn)
+                    done = True
+                    break
+        if done:
+            continue
+        # (b) a nested function of the caller
+        holder_idx = None
+        for i, st in enumerate(top.body):
+            if any(x is c for c, _t, _tr in ss for x in ast.walk(st)):
+                holder_idx = i
+                break
+        if holder_idx is None or not all(v.id == prm for b in bindings for prm, v in b.items() if prm != recv_prm):
+            continue
+        top_stored = {x.id for x in ast.walk(top) if isinstance(x, ast.Name) and isinstance(x.ctx, ast.Store)}
+        top_params = {x.arg for x in top.args.args + top.args.kwonlyargs}
+        direct2: tp.Dict[str, ast.expr] = {}
+        for prm in params + kwonly:
+            vals = [b[prm] for b in bindings]
+            v0 = vals[0]
+            same = all(ast.dump(v) == ast.dump(v0) for v in vals)
+            if not same or prm in stored:
+                continue
+            if isinstance(v0, ast.Name) and (v0.id in top_params or v0.id in top_stored or v0.id in ('self', 'cls')):
+                direct2[prm] = v0
+            elif isinstance(v0, ast.Attribute) and params and prm == params[0] and hcls is not None and 'classmethod' in decos:
+                direct2[prm] = v0
+
+        class Rn2(ast.NodeTransformer):
+            def visit_Name(self, node):
+                if node.id in direct2 and isinstance(node.ctx, ast.Load):
+                    return ast.copy_location(copy.deepcopy(direct2[node.id]), node)
+                return node
+        new_name = 'gen_' + nm.strip('_') + suffix
+        nd = copy.deepcopy(h)
+        nd.name = new_name
+        nd._sfa_origin = (hcls.name + '.' if hcls is not None else '') + h.name        # exception tables are keyed by the helper's own name
+        nd.decorator_list = []
+        nd.args.args = [x for x in nd.args.args if x.arg not in direct2]
+        # defaults belong to the trailing positional parameters: keep only those whose parameter remains
+        keep_def = []
+        for prm, d in zip(params[len(params) - len(a.defaults):], nd.args.defaults):
+            if prm not in direct2:
+                keep_def.append(d)
+        nd.args.defaults = keep_def
+        kk = [(x, d) for x, d in zip(nd.args.kwonlyargs, nd.args.kw_defaults) if x.arg not in direct2]
+        nd.args.kwonlyargs = [x for x, _d in kk]
+        nd.args.kw_defaults = [d for _x, d in kk]
+        nd.body = [Rn2().visit(b) for b in nd.body if not (isinstance(b, ast.Expr) and isinstance(b.value, ast.Constant) and isinstance(b.value.value, str))]
+        remaining = [x.arg for x in nd.args.args]
+        ok_sites = True
+        for (call, _t, _tr), binding in zip(ss, bindings):
+            new_args = []
+            new_kw = []
+            for prm in remaining:
+                new_args.append(binding[prm])
+            for x in nd.args.kwonlyargs:
+                new_kw.append(ast.keyword(arg=x.arg, value=binding[x.arg]))
+            call.func = ast.copy_location(ast.Name(id=new_name, ctx=ast.Load()), call.func)
+            call.args = new_args
+            call.keywords = new_kw
+        if not ok_sites:
+            continue
+        top.body.insert(holder_idx, ast.copy_location(nd, top.body[holder_idx]))
+        ast.fix_missing_locations(top)
 
 
 def _inline_single_call_helpers(trees: tp.Sequence[ast.AST]) -> None:
@@ -641,6 +928,7 @@ def _inline_single_call_helpers(trees: tp.Sequence[ast.AST]) -> None:
                         i += len(new) - 1
             ast.fix_missing_locations(fn)
     for tree in trees:
+        _fold_simple_generators(tree)
         _split_tuple_assigns(tree)
         _fold_append_loops(tree)
         _inline_adjacent_temporaries(tree)
@@ -700,6 +988,7 @@ class Program:
             self.modules[m.short] = m
         self.digest = h.hexdigest()[:16]
         if not os.environ.get('SFA_NO_INLINE'):
+            _renest_generator_helpers([m.tree for m in self.modules.values()])
             _inline_single_call_helpers([m.tree for m in self.modules.values()])
         init = os.path.join(self.repo, 'static_frame', '__init__.py')
         with open(init, encoding='utf-8') as f:
@@ -738,6 +1027,9 @@ class Program:
             # nested scopes
             body_nodes = [node.body] if isinstance(node, ast.Lambda) else node.body
             for sub in body_nodes:
+                if isinstance(sub, FUNC_TYPES):
+                    add_func(sub, qual + '.<locals>', cls, fi)      # a def statement of this body: its own nested scopes belong to it
+                    continue
                 for n in walk_local(sub):
                     if n is node:
                         continue
